@@ -45,6 +45,10 @@ variable {α : Type} [Inhabited α]
 /-- `operation=None`: "take the first one" (`params[0, i]`, `params[g[0], i]`) -/
 def first (l : List α) : α := l.headD default
 
+/-- `operation=np.sum` (running sum from `z` = 0): what `jacobian` packs its per-feature gradient
+array with.  mirrors L339 -/
+def sumOp [Add α] (z : α) (l : List α) : α := l.foldl (· + ·) z
+
 /-- numpy fancy indexing `col[g]` -/
 def gather (col : List α) (g : List Nat) : List α := g.map (fun j => col.getD j default)
 
